@@ -93,7 +93,11 @@ pub fn build_cases(tier: &str) -> Vec<Case> {
     // singles: needles of length 0..3 x haystacks of length 0..4, every relation, quoted or not,
     // with and without i
     let needles = strings_over(&alpha, 3);
-    let hays = strings_over(&alpha, 4);
+    let mut hays = strings_over(&alpha, 4);
+    // line feeds: `^`, `$` and `.` treat them specially
+    for h in ["\n", "a\n", "\na", "b\na", "a\nb", "ab\nb", "b\nab", "a\n\nb", "A\nb"] {
+        hays.push(h.to_string());
+    }
     let docs = docs_of(&hays);
     for n in &needles {
         for (text, form) in forms(n) {
@@ -107,7 +111,11 @@ pub fn build_cases(tier: &str) -> Vec<Case> {
     }
     // `*` and a small regex grammar
     let mut singles: Vec<String> = vec!["*".into(), "i*".into(), "**".into(), "i**".into(), "***".into()];
-    for re in ["a", "^a", "a$", "a.b", "a|b", "[ab]+", "a*", "^$", "A", "ab", "^ab", "b$", ".*a", "a.*", ".*a.*", "(?i)a", "\\.", "a{2}"] {
+    for re in [
+        "a", "^a", "a$", "a.b", "a|b", "[ab]+", "a*", "^$", "A", "ab", "^ab", "b$", ".*a", "a.*", ".*a.*", "(?i)a", "\\.", "a{2}",
+        // outer wildcards pinned to the start / the end: `.` does not match a line feed
+        "^.*a", "a.*$", "^.*ab", "ab.*$", "^.*a.*$", ".a", "a.",
+    ] {
         singles.push(format!("?{re}"));
         singles.push(format!("i?{re}"));
     }
@@ -171,7 +179,10 @@ fn long_pattern() -> BoxedStrategy<String> {
             2 => format!("\"{n}"),
             _ => format!("{n}\""),
         }),
-        2 => prop::sample::select(vec!["?a", "?^a", "?b$", "?a.b", "?[ab]+c", "?é", "?^.a", "?\\d", "?a|B", "?.*ab.*"]).prop_map(|s| s.to_string()),
+        2 => prop::sample::select(vec![
+            "?a", "?^a", "?b$", "?a.b", "?[ab]+c", "?é", "?^.a", "?\\d", "?a|B", "?.*ab.*", "?^.*a", "?b.*$", "?^.*ab", "?ab.*$", "?.b",
+        ])
+        .prop_map(|s| s.to_string()),
     ];
     (form, prop::bool::weighted(0.4))
         .prop_map(|(f, ci)| if ci { format!("i{f}") } else { f })
@@ -234,7 +245,8 @@ pub fn run(tier: &str, seed: u64) -> i32 {
         (longer needles, multi-byte and special-casing letters, regexes) against haystacks derived from the \
         members (needle at start/middle/end, case-flipped, truncated, doubled) and arrays of them. Oracle: \
         independent pattern parser + ==/starts_with/ends_with/contains on ASCII-folded strings (regex crate for \
-        regex members); a list is the OR of its members. Non-trivial: a rule for which some haystack matches and \
+        regex members); a list is the OR of its members. Regexes include outer wildcards pinned to the start / end \
+        and haystacks include line feeds. Every document is also matched against the rule optimised with the default switches and with one further switch set; a verdict that differs from the rule as loaded must be explained by the known findings K1 / K2 (relaxed reference for that switch set). Non-trivial: a rule for which some haystack matches and \
         some does not; distinct by rule text."
         .into();
     report.assumptions = vec![
@@ -262,7 +274,7 @@ pub fn run(tier: &str, seed: u64) -> i32 {
     let strat = || {
         (
             prop::collection::vec(long_pattern(), 1..=6),
-            prop::collection::vec("[abAB éÉ]{0,6}", 0..=4),
+            prop::collection::vec("[abAB éÉ\n]{0,6}", 0..=4),
             prop::collection::vec(any::<u8>(), 6),
             any::<bool>(),
         )
